@@ -1,8 +1,194 @@
 // Generators for the remaining properties.
 use crate::gen::*;
 
-pub fn dispatch(prop: &str, _g: &mut Gen) {
+pub fn dispatch(prop: &str, g: &mut Gen) {
     match prop {
+        "C05" => c05(g),
+        "C01" => crate::gen_bv::c01(g),
+        "C09" => crate::gen_bv::c09(g),
+        "C08" => crate::gen_bv::c08(g),
+        "C10" => crate::gen_bv::c10(g),
+        "C02" => crate::gen_sp::c02(g),
+        "C15" => crate::gen_sp::c15(g),
+        "C16" => crate::gen_sp::c16(g),
+        "C03" => crate::gen_rl::c03(g),
+        "C11" => crate::gen_rl::c11(g),
+        "C04" => crate::gen_wm::c04(g),
+        "C06" => crate::gen_ser::c06(g),
+        "C07" => crate::gen_ser::c07(g),
+        "C12" => crate::gen_ser::c12(g),
+        "C13" => crate::gen_ser::c13(g),
+        "C14" => crate::gen_ser::c14(g),
+        "C18" => crate::gen_ser::c18(g),
+        "C19" => crate::gen_ser::c19(g),
+        "C20" => crate::gen_ser::c20(g),
         _ => panic!("harness: no generator for property {}", prop),
     }
+}
+
+fn mask(w: u64) -> u64 { if w >= 64 { !0 } else { (1u64 << w) - 1 } }
+
+// ---------------------------------------------------------------------------------------------
+// C05: raw and integer vectors under any operation history
+
+/// One iv history; `ops` are indices into the op alphabet. The generator keeps its own reference list so that it
+/// can emit the "freshly built equal vector" comparison at the end.
+fn iv_history(g: &mut Gen, w: u64, ops: &[usize], check_every: bool) -> Vec<String> {
+    let mut lines = vec![format!("iv A new {}", w)];
+    let mut items: Vec<u64> = Vec::new();
+    let mut width = w;
+    for op in ops {
+        let big = g.rng.next() | (1u64 << 63) | 1;
+        let small = g.rng.below(4);
+        match op {
+            0 => { lines.push(format!("iv A push {}", big)); items.push(big & mask(width)); },
+            1 => { lines.push(format!("iv A push {}", small)); items.push(small & mask(width)); },
+            2 => { lines.push("iv A pop".to_string()); items.pop(); },
+            3 => { if !items.is_empty() { lines.push(format!("iv A set 0 {}", big)); items[0] = big & mask(width); } },
+            4 => { if !items.is_empty() { let i = items.len() - 1; lines.push(format!("iv A set {} {}", i, small)); items[i] = small & mask(width); } },
+            5 => { let n = items.len() + 1 + g.rng.below(3) as usize; lines.push(format!("iv A resize {} {}", n, big)); items.resize(n, big & mask(width)); },
+            6 => { let n = items.len().saturating_sub(1 + g.rng.below(2) as usize); lines.push(format!("iv A resize {} {}", n, small)); items.truncate(n); },
+            7 => { lines.push("iv A clear".to_string()); items.clear(); },
+            8 => {
+                lines.push("iv A pack".to_string());
+                if !items.is_empty() { let m = *items.iter().max().unwrap(); width = 64 - (m | 1).leading_zeros() as u64; }
+            },
+            9 => { let a = g.rng.next(); let b = g.rng.below(2); lines.push(format!("iv A extend {} {}", a, b)); items.push(a & mask(width)); items.push(b & mask(width)); },
+            10 => { if !items.is_empty() { let i = g.rng.below(items.len() as u64); lines.push(format!("iv A get {}", i)); } },
+            11 => { lines.push(format!("iv A reserve {}", g.rng.below(100))); },
+            _ => unreachable!(),
+        }
+        if check_every { lines.push("iv A items".to_string()); }
+    }
+    // same width + same content, produced differently => equal, identical bytes
+    lines.push(format!("iv B new {}", width));
+    if !items.is_empty() {
+        lines.push(format!("iv B extend {}", items.iter().map(|x| x.to_string()).collect::<Vec<_>>().join(" ")));
+    }
+    lines.push("iv A eq B".to_string());
+    lines.push("iv A ser".to_string());
+    lines.push("iv B ser".to_string());
+    lines.push("iv A items".to_string());
+    lines
+}
+
+fn raw_history(g: &mut Gen, ops: &[usize]) -> Vec<String> {
+    let mut lines = vec!["raw A new".to_string()];
+    let mut len: u64 = 0;
+    let mut bits: Vec<bool> = Vec::new();
+    for op in ops {
+        match op {
+            0 => { let b = g.rng.below(2); lines.push(format!("raw A push_bit {}", b)); bits.push(b == 1); len += 1; },
+            1 => {
+                let w = match g.rng.below(6) { 0 => 64, 1 => 1, 2 => 63, 3 => 0, _ => g.rng.range(1, 64) };
+                let v = g.rng.word();
+                lines.push(format!("raw A push_int {} {}", v, w));
+                for i in 0..w { bits.push((v >> i) & 1 == 1); }
+                len += w;
+            },
+            2 => { lines.push("raw A pop_bit".to_string()); if len > 0 { bits.pop(); len -= 1; } },
+            3 => {
+                let w = match g.rng.below(5) { 0 => 64, 1 => 1, 2 => 0, _ => g.rng.range(1, 64) };
+                lines.push(format!("raw A pop_int {}", w));
+                if len >= w { for _ in 0..w { bits.pop(); } len -= w; }
+            },
+            4 => { if len > 0 { let i = if g.rng.chance(1, 3) { len - 1 } else { g.rng.below(len) }; let b = g.rng.below(2); lines.push(format!("raw A set_bit {} {}", i, b)); bits[i as usize] = b == 1; } },
+            5 => {
+                if len > 0 {
+                    let w = std::cmp::min(len, match g.rng.below(4) { 0 => 64, 1 => 1, _ => g.rng.range(1, 64) });
+                    let off = if g.rng.chance(1, 3) { len - w } else { g.rng.below(len - w + 1) };
+                    let v = g.rng.word();
+                    lines.push(format!("raw A set_int {} {} {}", off, v, w));
+                    for i in 0..w { bits[(off + i) as usize] = (v >> i) & 1 == 1; }
+                }
+            },
+            6 => { let n = len + g.rng.range(1, 130); let b = g.rng.below(2); lines.push(format!("raw A resize {} {}", n, b)); bits.resize(n as usize, b == 1); len = n; },
+            7 => { let n = len.saturating_sub(g.rng.range(1, 70)); let b = g.rng.below(2); lines.push(format!("raw A resize {} {}", n, b)); bits.truncate(n as usize); len = n; },
+            8 => { lines.push("raw A clear".to_string()); bits.clear(); len = 0; },
+            9 => {
+                if len > 0 {
+                    let w = std::cmp::min(len, g.rng.range(1, 64));
+                    let off = g.rng.below(len - w + 1);
+                    lines.push(format!("raw A int {} {}", off, w));
+                    lines.push(format!("raw A bit {}", g.rng.below(len)));
+                }
+            },
+            10 => { lines.push(format!("raw A reserve {}", g.rng.below(1000))); },
+            _ => unreachable!(),
+        }
+    }
+    // an equal vector produced by a different route: word-wise construction from the reference bits
+    let mut words: Vec<u64> = vec![0; (bits.len() + 63) / 64];
+    for (i, b) in bits.iter().enumerate() { if *b { words[i / 64] |= 1u64 << (i % 64); } }
+    lines.push(format!("raw B from_words {} {}", bits.len(), words.iter().map(|x| x.to_string()).collect::<Vec<_>>().join(" ")));
+    lines.push("raw A eq B".to_string());
+    lines.push("raw A ser".to_string());
+    lines.push("raw B ser".to_string());
+    lines.push("raw C complement_of A".to_string());
+    lines
+}
+
+fn c05(g: &mut Gen) {
+    // exhaustive short histories over the op alphabet, widths at the extremes
+    let depth = if g.thorough { 4 } else { 3 };
+    let alphabet: Vec<usize> = (0..10).collect();
+    for w in [1u64, 7, 63, 64] {
+        let mut seq = vec![0usize; depth];
+        loop {
+            let ops: Vec<usize> = seq.iter().map(|i| alphabet[*i]).collect();
+            let lines = iv_history(g, w, &ops, false);
+            g.group(lines);
+            let mut k = 0;
+            loop {
+                if k == depth { break; }
+                seq[k] += 1;
+                if seq[k] < alphabet.len() { break; }
+                seq[k] = 0; k += 1;
+            }
+            if k == depth { break; }
+        }
+    }
+    // random histories over all widths, with values wider than the width
+    let nhist = if g.thorough { 2000 } else { 200 };
+    for i in 0..nhist {
+        let w = 1 + (i as u64 % 64);
+        let n = g.rng.range(5, 60) as usize;
+        let ops: Vec<usize> = (0..n).map(|_| { let r = g.rng.below(20); if r < 7 { 0 } else if r < 9 { 1 } else { (r - 7) as usize } }).collect();
+        let ops: Vec<usize> = ops.into_iter().map(|o| if o > 11 { 0 } else { o }).collect();
+        let lines = iv_history(g, w, &ops, i % 10 == 0);
+        g.group(lines);
+    }
+    // constructors: fill values, invalid widths
+    let mut lines = Vec::new();
+    for w in [0u64, 1, 13, 64, 65, 1000] {
+        lines.push(format!("iv X new {}", w));
+        lines.push(format!("iv X with_len 5 {} {}", w, u64::MAX));
+        lines.push(format!("iv X with_capacity 5 {}", w));
+    }
+    for ty in ["u8", "u16", "u32", "u64", "usize", "iter64"] {
+        lines.push(format!("iv V from_vec {} 1 2 300 70000 5000000000 0", ty));
+        lines.push("iv V pack".to_string());
+        lines.push("iv V it n b N1 l B0 n n n".to_string());
+    }
+    g.group(lines);
+    // raw histories
+    let nraw = if g.thorough { 3000 } else { 300 };
+    for _ in 0..nraw {
+        let n = g.rng.range(3, 40) as usize;
+        let ops: Vec<usize> = (0..n).map(|_| { let r = g.rng.below(16); if r < 3 { 0 } else if r < 7 { 1 } else { (r - 5) as usize } }).collect();
+        let lines = raw_history(g, &ops);
+        g.group(lines);
+    }
+    // with_len with both fill values at word boundaries, then grow/shrink
+    let mut lines = Vec::new();
+    for n in [0u64, 1, 63, 64, 65, 127, 128, 129, 200] {
+        for b in [0, 1] {
+            lines.push(format!("raw W with_len {} {}", n, b));
+            lines.push(format!("raw W resize {} {}", n + 3, 1 - b));
+            lines.push(format!("raw W resize {} {}", n / 2, b));
+            lines.push("raw W pop_int 7".to_string());
+            lines.push("raw W ser".to_string());
+        }
+    }
+    g.group(lines);
 }
